@@ -239,6 +239,7 @@ def parse_vals(line):
     """'ok a b c' -> [Fraction]; None for error lines"""
     t = line.split()
     if not t or t[0] != 'ok': return None
+    if any(not re.match(r'^-?\d+(/\d+)?$', x) for x in t[1:]): return None
     try:
         return [Fraction(x) for x in t[1:]]
     except (ValueError, ZeroDivisionError):
